@@ -19,6 +19,8 @@ def opi (s : Stack) : List (Option Nat × Bool) × List (Tid × TaskSt) :=
 @[simp] theorem opi_with_findTask (s : Stack) (x : Option Nat) : opi { s with findTask := x } = opi s := rfl
 @[simp] theorem opi_with_findLog (s : Stack) (x : List (Nat × Nat)) : opi { s with findLog := x } = opi s := rfl
 @[simp] theorem opi_with_findMarks (s : Stack) (x : List (Nat × Nat)) : opi { s with findMarks := x } = opi s := rfl
+@[simp] theorem opi_with_ansLog (s : Stack) (x : List (Nat × Addr × Nat × Nat)) : opi { s with ansLog := x } = opi s := rfl
+@[simp] theorem opi_logAnswer (s : Stack) (i : Nat) (a : Addr) (d : Nat) : opi (s.logAnswer i a d) = opi s := rfl
 @[simp] theorem opi_markFind (s : Stack) (n : Nat) : opi (s.markFind n) = opi s := rfl
 @[simp] theorem opi_with_offLog (s : Stack) (x : List (Nat × OEv × Nat)) : opi { s with offLog := x } = opi s := rfl
 @[simp] theorem opi_logOffer (s : Stack) (i : Nat) (e : OEv) : opi (s.logOffer i e) = opi s := rfl
